@@ -264,3 +264,40 @@ func (r *Runner) Calm(quiet int) *CalmResult {
 	}
 	return res
 }
+
+// EventLoop drives the controller the way a running process is driven: pending watch events are
+// delivered in order to the caches and to the controller's own handlers, which fill the virtual-time
+// queue; one worker step at a time; back-off waits are skipped in virtual time; the kubelet is
+// co-operative. It stops at quiescence (queue empty, nothing waiting, no pending event, kubelet idle)
+// or after maxSteps worker steps.
+func (r *Runner) EventLoop(maxSteps int) (quiescent bool, steps int) {
+	w := r.W
+	for steps = 0; steps < maxSteps; {
+		w.Srv.RunGC()
+		w.Srv.SweepDangling()
+		acted := false
+		for _, n := range w.PodNames() {
+			if w.Kubelet(n, "settle") {
+				acted = true
+			}
+		}
+		w.DeliverAll()
+		if w.Q.Len() == 0 {
+			if at, ok := w.Q.NextReady(); ok {
+				w.Q.Advance(at)
+				continue
+			}
+			if w.PendingTotal() == 0 && !acted {
+				return true, steps
+			}
+			continue
+		}
+		rec := w.WorkerStep()
+		steps++
+		r.logRec(rec)
+		if r.OnRecord != nil {
+			r.OnRecord(rec)
+		}
+	}
+	return false, steps
+}
